@@ -4,6 +4,10 @@
 (* GetOrCreate returns a handle; Add/Load/Store act on handles, so an Add on  *)
 (* a handle that Delete/Clear has orphaned is defined (it updates the cell    *)
 (* that nobody can reach through the map any more).  State a = [items, val]. *)
+(* Handles are first-class values: a handle kept by a caller across Delete /  *)
+(* Clear of its key is DETACHED - it denotes its own private cell for ever;   *)
+(* nothing done through it is visible under any key of the map, and no later *)
+(* getorcreate may hand the same handle out again (a created handle is fresh). *)
 (* Handle names are arbitrary: the name of a handle created by getorcreate is *)
 (* taken from the result (it only has to be fresh: never handed out before).  *)
 (* Results: get [ok, h] (h = 0 = nil when absent); getorcreate h; foreach a   *)
